@@ -96,6 +96,9 @@ func genC11(t *rapid.T) CaseC11 {
 	if c.PID == 0x1FFF {
 		c.PID = 0x1FFE // a null packet carries no PES (and has no unit start): a reader may ignore it
 	}
+	if c.PID < 0x10 {
+		c.PID += 0x10 // PIDs 0x0000-0x000F are reserved for PSI: a unit start there is a pointer_field, never a PES header
+	}
 	c.CC = rapid.IntRange(0, 15).Draw(t, "cc")
 	c.TailFill = rapid.Byte().Draw(t, "tail")
 	return c
